@@ -555,6 +555,12 @@ def run_mix(spec: dict, rec: Recorder) -> None:
             kind = rng.choice(["octets", "utf8", "gentime"])
             ln = rng.choice([0, 1, 126, 127, 128, 129, 254, 255, 256, 257, 1000, rng.randrange(0, 3000)])
             val = rng.randbytes(ln) if kind == "octets" else (rand_text(rng, ln // 2) if kind == "utf8" else "20231231235959.%dZ" % rng.randrange(1000))
+            if kind == "octets" and i % 3 == 0:
+                # data that looks like other data: an OCTET STRING whose content is itself one complete DER value - an OCTET
+                # STRING (as in X.509 extensions), nested several times, or any other value - possibly followed by more bytes
+                inner = rng.randbytes(rng.choice([0, 1, 20, 127, 128, 300]))
+                val = rng.choice([der.enc_octets(inner), der.enc_octets(der.enc_octets(inner)), der.enc_seq(der.enc_octets(inner)), der.enc_int(rng.getrandbits(64)), der.tlv(2, True, rng.choice([0, 1, 31, 200]), der.enc_octets(inner)), der.enc_octets(inner) + b"\x00", der.enc_octets(inner) + der.enc_octets(inner)])
+                rec.count("octet_strings_holding_der")
             check_string(rec, kind, val)
             rec.case((kind, val))
             rec.count("string_checked")
